@@ -352,9 +352,15 @@ def main():
         return 0
     if a.setup:
         build_instr()
+        accepted = set(open(os.path.join(VERIF, "accepted.txt")).read().split()) if os.path.exists(os.path.join(VERIF, "accepted.txt")) else None
         for pid, spec in load_checks().items():
+            if accepted is not None and pid not in accepted:
+                continue
             for part in spec["parts"]:
-                build_part(pid, part)
+                try:
+                    build_part(pid, part)
+                except SystemExit:
+                    log("setup: pre-build of %s/%s failed (the check itself will report it)" % (pid, part["name"]))
         return 0
     if not a.id:
         ap.error("property id required")
